@@ -228,6 +228,9 @@ func c10Scenarios(cfg runCfg) []Scenario {
 		case 7:
 			fam = "fuzz"
 		}
+		if mix(cfg.seed, 1011, uint64(i))%40 == 0 {
+			fam = "goexit"
+		}
 		out = append(out, Scenario{Family: fam, Seed: mix(cfg.seed, 10, uint64(i))})
 	}
 	return out
@@ -378,6 +381,42 @@ func c10Run(t *testing.T, sc Scenario, res *Result) {
 			res.inc("fail_file_replay_runs")
 			res.count("brackets_in_fail_file_replay_runs", int64(len(rec.brackets)-before))
 		}
+	case "goexit":
+		// the invocation ends by runtime.Goexit: the property calls Skip/FailNow of the ENCLOSING *testing.T
+		// inside rapid.Check (or MakeFuzz); its cleanups and context must still be wound up
+		setFlags(map[string]string{"rapid.checks": "10", "rapid.nofailfile": "true"})
+		body := c10Body(rec, sc.Seed)
+		calls := 0
+		how := pick(r, []string{"Skip", "FailNow", "SkipNow"})
+		at := r.between(1, 4)
+		t.Run("goexit", func(s *testing.T) {
+			prop := func(rt *rapid.T) {
+				calls++
+				if calls == at {
+					b := rec.begin("prop", "generate")
+					defer rec.bodyEnd(b, "goexit")
+					rec.ctx(b, rt, "before goexit")
+					rec.register(b, rt, c10None, 0)
+					rec.register(b, rt, c10Ctx, 0)
+					rec.register(b, rt, c10More, 0)
+					switch how {
+					case "Skip":
+						s.Skip("enclosing test skipped from inside the property")
+					case "SkipNow":
+						s.SkipNow()
+					default:
+						s.FailNow()
+					}
+				}
+				body(rt)
+			}
+			if r.chance(1, 3) {
+				rapid.MakeFuzz(prop)(s, hostileBytes(newRng(sc.Seed, 9), 30))
+			} else {
+				rapid.Check(s, prop)
+			}
+		})
+		res.inc("goexit_runs")
 	case "example":
 		g := c10Custom(rec, r, "return", "Skip", "Errorf", "panic")
 		for s := 0; s < 12; s++ {
